@@ -135,3 +135,241 @@ def r_init_security(d):
     if kind == "ensures" and raised is not None:
         return {"confirmed": None, "note": "model predicted normal exit, real code raised %r" % raised, "trace": trace}
     return {"confirmed": (not holds), "clause_holds_natively": holds, "trace": trace, "raised": repr(raised)}
+
+
+# ------------------------------------------------------------------- generic: protocol methods
+def _config(m):
+    from pygopherd import testutil
+    cfg = testutil.get_config()
+    for k, v in m.items():
+        if k.startswith("cfg[") and isinstance(v, str):
+            sec, opt = k[4:-1].split("/", 1)
+            if not cfg.has_section(sec):
+                cfg.add_section(sec)
+            cfg.set(sec, opt, v.replace("%", "%%"))
+        elif k.startswith("cfgbool["):
+            sec, opt = k[8:-1].split("/", 1)
+            if not cfg.has_section(sec):
+                cfg.add_section(sec)
+            cfg.set(sec, opt, "yes" if v else "no")
+        elif k.startswith("cfgint[") and isinstance(v, int):
+            sec, opt = k[7:-1].split("/", 1)
+            if not cfg.has_section(sec):
+                cfg.add_section(sec)
+            cfg.set(sec, opt, str(v))
+    return cfg
+
+
+def _bytes(s):
+    if isinstance(s, bytes):
+        return s
+    return (s or "").encode("latin-1", "replace")
+
+
+def _class_of(function):
+    # "pygopherd/protocols/http.py::HTTPProtocol.canhandlerequest [self: WAPProtocol]"
+    import importlib
+    rel, rest = function.split("::", 1)
+    selfcls = None
+    if "[self:" in rest:
+        rest, sc = rest.split("[self:")
+        selfcls = sc.strip(" ]")
+        rest = rest.strip()
+    mod = importlib.import_module(rel[:-3].replace("/", "."))
+    if "." in rest:
+        cname, meth = rest.split(".", 1)
+        cls = getattr(mod, cname)
+        _class_of.defining = cls
+        if selfcls and selfcls != cname:
+            cls = _find_class(selfcls)
+        return mod, cls, meth
+    return mod, None, rest
+
+
+def _find_class(name):
+    import importlib, pkgutil
+    import pygopherd.protocols, pygopherd.handlers
+    for pkg in (pygopherd.protocols, pygopherd.handlers):
+        for mi in pkgutil.iter_modules(pkg.__path__):
+            try:
+                mod = importlib.import_module(pkg.__name__ + "." + mi.name)
+            except Exception:
+                continue
+            if hasattr(mod, name):
+                return getattr(mod, name)
+    import pygopherd.server
+    return getattr(pygopherd.server, name)
+
+
+def _mk_protocol(cls, m, tls, prefix="self."):
+    from pygopherd import testutil
+    cfg = _config(m)
+    content = _bytes(m.get(prefix + "rfile.content", m.get("rfile.content", "")))
+    pos = m.get(prefix + "rfile.pos", m.get("rfile.pos", 0)) or 0
+    rfile = io.BytesIO(content[pos:] if isinstance(pos, int) and pos >= 0 else content)
+    wfile = io.BytesIO()
+    handler = testutil.get_testing_handler(io.BytesIO(), io.BytesIO(), cfg, use_tls=tls)
+    handler.rfile, handler.wfile = rfile, wfile
+    req = m.get(prefix + "request", m.get("request", ""))
+    if not isinstance(req, str):
+        req = ""
+    proto = cls(req, handler.server, handler, rfile, wfile, cfg)
+    return proto, handler, cfg
+
+
+def _native_check(d, env_fn, call_fn):
+    """Try tls in (False, True): confirmed iff for some variant the clause is natively false (or an
+    undeclared exception escapes for a raises obligation)."""
+    attempts = []
+    for tls in (False, True):
+        try:
+            env = env_fn(tls)
+            code, olds = prepare_clause(d["clause"], env) if d["kind"] in ("ensures", "on_raise", "canary") else (None, None)
+            raised = None
+            result = None
+            try:
+                result = call_fn(env)
+            except Exception as e:  # noqa
+                raised = e
+            env["result"] = result
+            env["raised"] = raised
+            if d["kind"] == "raises":
+                attempts.append({"tls": tls, "raised": repr(raised)})
+                if raised is not None and type(raised).__name__ in d["clause"]:
+                    return {"confirmed": True, "witness": attempts[-1]}
+                continue
+            if raised is not None:
+                attempts.append({"tls": tls, "raised": repr(raised)})
+                continue
+            holds = bool(eval_clause(code, olds, env))
+            attempts.append({"tls": tls, "result": repr(result), "clause_holds": holds})
+            if not holds:
+                return {"confirmed": True, "witness": attempts[-1], "input": {k: repr(v)[:200] for k, v in d["model"].items() if "request" in k or "selector" in k}}
+        except Exception as e:  # noqa
+            import traceback
+            attempts.append({"tls": tls, "harness_error": traceback.format_exc()[-600:]})
+    if any("harness_error" in a for a in attempts):
+        return {"confirmed": None, "attempts": attempts}
+    return {"confirmed": False, "attempts": attempts}
+
+
+@realiser("pygopherd/protocols/")
+def r_protocol(d):
+    mod, cls, meth = _class_of(d["function"])
+    m = d["model"]
+    if cls is None:
+        return r_getprotocol(d)
+    state = {}
+
+    def env_fn(tls):
+        proto, handler, cfg = _mk_protocol(cls, m, tls)
+        state["proto"] = proto
+        ghost = types.SimpleNamespace()
+        env = {"self": proto, "ghost": ghost}
+        for k, v in m.items():
+            if k.startswith("self.") and k.count(".") == 1 and k[5:] not in ("request",) and isinstance(v, (str, int, bool)):
+                try:
+                    setattr(proto, k[5:], v)
+                except Exception:
+                    pass
+        ghost.conn_headers = _LazyHeaders(handler)
+        if meth == "__init__":
+            env.update(request=proto.request, server=proto.server, requesthandler=proto.requesthandler,
+                       rfile=proto.rfile, wfile=proto.wfile, config=proto.config)
+        return env
+
+    def call_fn(env):
+        proto = env["self"]
+        if meth == "__init__":
+            return None
+        import inspect
+        fn = getattr(_class_of.defining, meth)
+        names = [p for p in inspect.signature(fn).parameters][1:]
+        args = [m.get(n, "") for n in names]
+        for n, a in zip(names, args):
+            env[n] = a
+        return fn(proto, *args)
+
+    return _native_check(d, env_fn, call_fn)
+
+
+class _LazyHeaders(dict):
+    """ghost.conn_headers: by definition the per-connection header map once slurped."""
+
+    def __init__(self, handler):
+        self.h = handler
+
+    def _d(self):
+        return getattr(self.h, "pygopherd_http_slurped", {})
+
+    def __contains__(self, k):
+        return k in self._d()
+
+    def __getitem__(self, k):
+        return self._d()[k]
+
+
+def r_getprotocol(d):
+    from pygopherd import testutil
+    from pygopherd.protocols import ProtocolMultiplexer
+    m = d["model"]
+
+    def env_fn(tls):
+        cfg = _config(m)
+        content = _bytes(m.get("rfile.content", ""))
+        pos = m.get("rfile.pos", 0) or 0
+        rfile = io.BytesIO(content[pos:])
+        handler = testutil.get_testing_handler(io.BytesIO(), io.BytesIO(), cfg, use_tls=tls)
+        handler.rfile = rfile
+        req = m.get("request", "")
+        return {"request": req if isinstance(req, str) else "", "server": handler.server, "requesthandler": handler,
+                "rfile": rfile, "wfile": handler.wfile, "config": cfg,
+                "ghost": types.SimpleNamespace(conn_headers=_LazyHeaders(handler))}
+
+    def call_fn(env):
+        return ProtocolMultiplexer.getProtocol(env["request"], env["server"], env["requesthandler"], env["rfile"], env["wfile"], env["config"])
+
+    return _native_check(d, env_fn, call_fn)
+
+
+@realiser("pygopherd/server.py::BaseServer.wrap_socket")
+def r_wrap_socket(d):
+    import socket
+    import pygopherd.server as srv
+    m = d["model"]
+    pending = _bytes(m.get("sock.pending", "\x16")) or b"\x16"
+
+    class Sock:
+        def __init__(self):
+            self.pending = pending
+            self.consumed = 0
+            self.ncalls = 0
+
+        def recv(self, n, flags=0):
+            self.ncalls += 1
+            data = self.pending[:n]
+            if not (flags & socket.MSG_PEEK):
+                self.pending = self.pending[len(data):]
+                self.consumed += len(data)
+            return data
+
+    class Ctx:
+        def wrap_socket(self, sock, server_side=False):
+            return types.SimpleNamespace(inner=sock)
+
+    results = []
+    for ctx in (Ctx(), None):
+        sock = Sock()
+        server = types.SimpleNamespace(context=ctx)
+        env = {"self": server, "sock": sock}
+        code, olds = prepare_clause(d["clause"], env)
+        try:
+            env["result"] = srv.BaseServer.wrap_socket(server, sock)
+        except Exception as e:  # noqa
+            results.append({"raised": repr(e)})
+            continue
+        holds = bool(eval_clause(code, olds, env))
+        results.append({"context": ctx is not None, "first_byte": pending[:1].hex(), "clause_holds": holds})
+        if not holds:
+            return {"confirmed": True, "witness": results[-1]}
+    return {"confirmed": False, "attempts": results}
